@@ -127,13 +127,7 @@ func (g *gen) addN(stream string, sc *scenario, n int) {
 	js["observed"] = map[string]interface{}{"attempts": ojs}
 	g.w.Count("stream:" + stream)
 	g.w.Count(fmt.Sprintf("concurrent_calls:%d", n))
-	// proxy.CloneRequest used to swallow the read error of the body it copies
-	// (fixes/C07-clone-body-read-error.diff)
-	sig := ""
-	if sc.fault != nil && normType(sc.typ) == "TMutation" {
-		sig = "concurrent-clone-body-read-error"
-	}
-	g.w.Add(emit.App("CStackN", input, emit.Nat(n), emit.List(terms)), js, sig, fmt.Sprintf("N|%d|%s", n, sc.canon()), true)
+	g.w.Add(emit.App("CStackN", input, emit.Nat(n), emit.List(terms)), js, "", fmt.Sprintf("N|%d|%s", n, sc.canon()), true)
 }
 
 func concurrentCalls(g *gen) {
